@@ -141,10 +141,7 @@ pub fn gen_spline_case<T: Flt>(rng: &mut Rng, o: &SplineOpts) -> (Spec1<T>, Labe
     let boundary: Bound<T> = if let Some((l, r)) = o.force_pair {
         let rows: Vec<RB<T>> = (0..n_lanes)
             .map(|_| {
-                RB::Mixed(
-                    gen_single_boundary(rng, l, if l == 3 { d1 } else { d2 }),
-                    gen_single_boundary(rng, r, if r == 3 { d1 } else { d2 }),
-                )
+                gen_mixed_pair(rng, l, r, d1, d2)
             })
             .collect();
         Bound::Individual(ArrayD::from_shape_vec(IxDyn(&bshape), rows).unwrap())
